@@ -483,6 +483,17 @@ def _dispatch(a, b, op):
 # non-linear functions as memoised auxiliaries
 
 
+def _factor(t):
+    """(k, X) with t == k*X for a rational numeral k != 0, else (1, t)."""
+    if z3.is_app(t) and t.decl().kind() == z3.Z3_OP_MUL and t.num_args() == 2 \
+            and z3.is_rational_value(t.arg(0)) and not z3.is_rational_value(t.arg(1)):
+        k = t.arg(0)
+        fr = Fraction(k.numerator_as_long(), k.denominator_as_long())
+        if fr != 0:
+            return fr, t.arg(1)
+    return Fraction(1), t
+
+
 def sym_ite(c, a, b):
     """if-then-else on scalars (no path split)."""
     c = _np_scalar(c)
@@ -504,7 +515,18 @@ def sym_ite(c, a, b):
     if isinstance(a, (SymInt, int)) and isinstance(b, (SymInt, int)) \
             and not isinstance(a, bool) and not isinstance(b, bool):
         return mk_int(z3.If(c.t, iv(a), iv(b)))
-    return mk_real(z3.If(c.t, rv(a), rv(b)))
+    ta, tb = rv(a), rv(b)
+    # pull a common rational factor out of both branches (keeps scaled and
+    # unscaled computations structurally aligned: k*ite(c, A, B))
+    ka, xa = _factor(ta)
+    kb, xb = _factor(tb)
+    if ka == kb and ka != 1:
+        return mk_real(z3.RealVal(str(ka)) * z3.If(c.t, xa, xb))
+    if ka != 1 and z3.is_rational_value(tb) and tb.numerator_as_long() == 0:
+        return mk_real(z3.RealVal(str(ka)) * z3.If(c.t, xa, z3.RealVal(0)))
+    if kb != 1 and z3.is_rational_value(ta) and ta.numerator_as_long() == 0:
+        return mk_real(z3.RealVal(str(kb)) * z3.If(c.t, z3.RealVal(0), xb))
+    return mk_real(z3.If(c.t, ta, tb))
 
 
 def sym_abs(x):
@@ -515,6 +537,9 @@ def sym_abs(x):
         return mk_int(z3.If(x.t >= 0, x.t, -x.t))
     if isinstance(x, SymBool):
         return mk_int(iv(x))
+    k, rest = _factor(x.t)
+    if k != 1:
+        return mk_real(z3.RealVal(str(abs(k))) * z3.If(rest >= 0, rest, -rest))
     return mk_real(z3.If(x.t >= 0, x.t, -x.t))
 
 
